@@ -50,9 +50,13 @@ def subOp (declsS : List Sexp) (aS bS : Sexp) : Sexp :=
 mutual
 def hasNullish : JsVal → Bool
   | .null | .undef => true
-  | .arr xs => hasNullishL xs
+  | .arr xs | .set xs | .typed _ xs => hasNullishL xs
   | .obj ps => hasNullishP ps
+  | .map es => hasNullishE es
   | _ => false
+def hasNullishE : List (JsVal × JsVal) → Bool
+  | [] => false
+  | (k, v) :: es => hasNullish k || hasNullish v || hasNullishE es
 def hasNullishL : List JsVal → Bool
   | [] => false
   | x :: xs => hasNullish x || hasNullishL xs
